@@ -1305,6 +1305,9 @@ class VariationalWassersteinDistance(darsia.EMD):
         # NOTE: The indices have to be restored if the LU factorization is to be used
         # FIXME omit if not required
         self.fully_reduced_jacobian.indices = self.fully_reduced_jacobian_indices.copy()
+        # The LU factorization sorts the indices in place and marks the matrix as sorted;
+        # with the indices (and data) restored to their original order, the flag is stale.
+        self.fully_reduced_jacobian.has_sorted_indices = False
 
         # Rhs is not affected by Gauss elimination as it is assumed that the residual
         # is zero in the constrained cell, and the pressure is zero there as well.
